@@ -75,7 +75,7 @@ Proof.
   split.
   - intros i Hi. cbn zeta. destruct (Hcover i Hi) as (s & base & n & Hin & Hr). destruct (Hblk s base n Hin) as (_ & _ & _ & _ & _ & B6).
     rewrite (B6 i Hr). cbn [h_sym]. destruct (Hone s base n Hin) as (_ & A & B). split; assumption.
-  - intros j Hj Hpos. destruct (Hsyms j Hj Hpos) as (base & Hin). destruct (Hone _ _ _ Hin) as (Ec & A & B).
+  - intros j Hj Hpos. destruct (Hsyms j Hj Hpos) as (base & Hin & _). destruct (Hone _ _ _ Hin) as (Ec & A & B).
     split; [exact A|]. split; [exact B|]. rewrite Ec. cbn [snd]. rewrite Forall_forall in Hbits. pose proof (Hbits _ (nth_In bits 0 Hj)) as Hle. f_equal. lia.
 Qed.
 
